@@ -11,7 +11,9 @@ from harness import simradio
 from harness.simradio import SimWorld, SimSpiDev, SimPin, SimTimeout
 from harness.rfsession import hx, unhex, sb, b01, show_radio, show_air, split_ops, pb, opt_int
 
-NET_CALL_BUDGET = 3_000_000
+# one public call of a node: 15 virtual seconds of SPI traffic (the longest legitimate call of any generator is a
+# 2.5 s renew_address()); a call that needs more does not terminate (`exc=DIVERGE`)
+NET_CALL_BUDGET = 1_500_000
 
 
 def show_frame(f) -> str:
@@ -254,6 +256,10 @@ class NetSession:
                 if n is not None else "?" for n in self.nodes)
             outs.append(res + " all=" + allv + " ~ " + " || ".join(show_radio(r) for r in self.world.radios)
                         + " ~ [" + ",".join(show_air(a) for a in new_air) + "]")
+            if res.startswith("exc=DIVERGE"):
+                # a call that never returns ends the history (no node-level call of the model diverges, so the
+                # line is a disagreement already; running on would cost a whole budget per further call)
+                break
         return " ; ".join(outs)
 
 
